@@ -10,17 +10,6 @@ theorem set_same (fs : FS) (p : Path) (v : Option FileData) : fs.set p v p = v :
 theorem set_other (fs : FS) (p q : Path) (v : Option FileData) (h : q ≠ p) : fs.set p v q = fs q := by
   simp [FS.set, h]
 
-/-- paths an action can change -/
-def targets : Act → List Path
-  | .createExcl p _ => [p]
-  | .write p _ => [p]
-  | .unlink p => [p]
-  | .rename s d => [s, d]
-  | .writeFail _ _ => []
-  | .close _ => []
-  | .closeFail _ => []
-  | .renameFail _ _ => []
-
 theorem apply_untouched (u : Nat) (fs : FS) (q : Path) (a : Act) (h : q ∉ targets a) : applyAct u fs a q = fs q := by
   cases a with
   | createExcl p m => simp [targets] at h; simp [applyAct, set_other _ _ _ _ h]
@@ -483,7 +472,7 @@ theorem steps_atomic (u : Nat) (tmp dst : Path) (hne : tmp ≠ dst) (m : Nat) (o
             · left; simpa [hdst1] using h2
             · obtain ⟨p, hp, h2⟩ := h2
               right
-              exact ⟨c ++ p, by simp [committed, hfd, hp], by simpa [List.append_assoc] using h2⟩
+              exact ⟨c ++ p, by rw [hfd] at hp; simp [committed, hfd, hp], by simpa [List.append_assoc] using h2⟩
         | true =>
           have hacts : (f.write c true).2 = [Act.writeFail tmp c.length] := by simp [File.write, hfd, ht]
           rw [hacts]
@@ -497,7 +486,7 @@ theorem steps_atomic (u : Nat) (tmp dst : Path) (hne : tmp ≠ dst) (m : Nat) (o
             · left; simpa using h2
             · obtain ⟨p, hp, h2⟩ := h2
               right
-              exact ⟨p, by simp [committed, hfd, hp], by simpa using h2⟩
+              exact ⟨p, by rw [hfd] at hp; simp [committed, hfd, hp], by simpa using h2⟩
       · have hfd' : f.fdOpen = false := by simpa using hfd
         have hacts : (f.write c fails).2 = [] := by simp [File.write, hfd']
         rw [hacts, List.nil_append]
@@ -505,7 +494,7 @@ theorem steps_atomic (u : Nat) (tmp dst : Path) (hne : tmp ≠ dst) (m : Nat) (o
         · exact Or.inl h2
         · obtain ⟨p, hp, h2⟩ := h2
           right
-          exact ⟨p, by simp [committed, hfd', hp], h2⟩
+          exact ⟨p, by rw [hfd'] at hp; simp [committed, hfd', hp], h2⟩
     | closeFd =>
       simp only [File.step]
       by_cases hfd : f.fdOpen = true
@@ -574,5 +563,142 @@ theorem steps_atomic (u : Nat) (tmp dst : Path) (hne : tmp ≠ dst) (m : Nat) (o
             | (subst hx'; simp [targets, hd])
             | (rcases hx' with rfl | rfl <;> simp [targets, hd])
             | (rcases hx' with rfl | rfl | rfl <;> simp [targets, hd]))
+
+end Safe
+
+namespace Safe
+
+/-! ## from the shape of an action sequence to the property -/
+
+/-- create, writes to `tmp`, one of the four tails, all chunks written if the tail is the commit tail:
+    old or new at every prefix -/
+theorem shape_atomic (u : Nat) (fs : FS) (tmp dst : Path) (hne : tmp ≠ dst) (mode : Nat) (ws tl : List Act)
+    (cs : List Bytes) (k : Nat) (hws : OnlyWrites tmp ws) (htl : Tail tmp dst tl)
+    (hcommit : tl = [.close tmp, .rename tmp dst] → ws = cs.map (Act.write tmp)) :
+    run u fs (([Act.createExcl tmp mode] ++ ws ++ tl).take k) dst = fs dst ∨
+    run u fs (([Act.createExcl tmp mode] ++ ws ++ tl).take k) dst = some ⟨cs.flatten, lessUmask mode u⟩ := by
+  have hd : dst ≠ tmp := fun e => hne e.symm
+  have hcreate : dst ∉ targets (Act.createExcl tmp mode) := by simp [targets, hd]
+  have hwr := onlyWrites_targets tmp dst hd ws hws
+  have hfail : ∀ l : List Act, (∀ a ∈ l, dst ∉ targets a) → run u fs (l.take k) dst = fs dst :=
+    fun l hl => run_untouched u fs dst _ (fun a ha => hl a (List.mem_of_mem_take ha))
+  have hpre : ∀ x : List Act, (∀ a ∈ x, dst ∉ targets a) →
+      ∀ a ∈ [Act.createExcl tmp mode] ++ ws ++ x, dst ∉ targets a := by
+    intro x hx a ha
+    simp only [List.mem_append, List.mem_singleton] at ha
+    rcases ha with (rfl | ha) | ha
+    · exact hcreate
+    · exact hwr a ha
+    · exact hx a ha
+  cases htl with
+  | abort => left; apply hfail; apply hpre; intro a ha; simp at ha; rcases ha with rfl | rfl <;> simp [targets, hd]
+  | closeFail => left; apply hfail; apply hpre; intro a ha; simp at ha; rcases ha with rfl | rfl <;> simp [targets, hd]
+  | renameFail =>
+    left; apply hfail; apply hpre; intro a ha; simp at ha; rcases ha with rfl | rfl | rfl <;> simp [targets, hd]
+  | commit =>
+    have hws' := hcommit rfl
+    have hsplit : [Act.createExcl tmp mode] ++ ws ++ [Act.close tmp, Act.rename tmp dst] =
+        ([Act.createExcl tmp mode] ++ ws ++ [Act.close tmp]) ++ [Act.rename tmp dst] := by simp
+    rw [hsplit]
+    have hp := hpre [Act.close tmp] (by intro a ha; simp at ha; subst ha; simp [targets])
+    by_cases hk : k ≤ ([Act.createExcl tmp mode] ++ ws ++ [Act.close tmp]).length
+    · left
+      rw [List.take_append_of_le_length hk]
+      exact run_untouched u fs dst _ (fun a ha => hp a (List.mem_of_mem_take ha))
+    · right
+      rw [List.take_of_length_le (by simp at hk ⊢; omega)]
+      have htmp : run u fs ([Act.createExcl tmp mode] ++ ws ++ [Act.close tmp]) tmp =
+          some ⟨cs.flatten, lessUmask mode u⟩ := by
+        rw [hws', before_rename_tmp]
+      rw [run_rename u fs _ tmp dst _ htmp, set_other _ _ _ _ hd, set_same]
+
+/-- any tail but the commit tail: the destination is untouched and the temporary file is gone -/
+theorem shape_failure (u : Nat) (fs : FS) (tmp dst : Path) (hne : tmp ≠ dst) (mode : Nat) (ws tl : List Act)
+    (hws : OnlyWrites tmp ws) (htl : Tail tmp dst tl) (hnc : tl ≠ [.close tmp, .rename tmp dst]) :
+    run u fs ([Act.createExcl tmp mode] ++ ws ++ tl) dst = fs dst ∧
+    run u fs ([Act.createExcl tmp mode] ++ ws ++ tl) tmp = none := by
+  have hd : dst ≠ tmp := fun e => hne e.symm
+  constructor
+  · apply run_untouched
+    intro a ha
+    simp only [List.mem_append, List.mem_singleton] at ha
+    rcases ha with (rfl | ha) | ha
+    · simp [targets, hd]
+    · exact onlyWrites_targets tmp dst hd ws hws a ha
+    · cases htl with
+      | commit => exact absurd rfl hnc
+      | abort => simp at ha; rcases ha with rfl | rfl <;> simp [targets, hd]
+      | closeFail => simp at ha; rcases ha with rfl | rfl <;> simp [targets, hd]
+      | renameFail => simp at ha; rcases ha with rfl | rfl | rfl <;> simp [targets, hd]
+  · rw [run_append]
+    cases htl with
+    | commit => exact absurd rfl hnc
+    | abort => simp [run, applyAct, set_same]
+    | closeFail => simp [run, applyAct, set_same]
+    | renameFail => simp [run, applyAct, set_same]
+
+/-- the commit tail: the destination holds all chunks with the final mode, the temporary file is gone -/
+theorem shape_commit (u : Nat) (fs : FS) (tmp dst : Path) (hne : tmp ≠ dst) (mode : Nat) (cs : List Bytes) :
+    run u fs ([Act.createExcl tmp mode] ++ cs.map (Act.write tmp) ++ [.close tmp, .rename tmp dst]) dst =
+      some ⟨cs.flatten, lessUmask mode u⟩ ∧
+    run u fs ([Act.createExcl tmp mode] ++ cs.map (Act.write tmp) ++ [.close tmp, .rename tmp dst]) tmp = none := by
+  have hd : dst ≠ tmp := fun e => hne e.symm
+  have hsplit : [Act.createExcl tmp mode] ++ cs.map (Act.write tmp) ++ [Act.close tmp, Act.rename tmp dst] =
+      ([Act.createExcl tmp mode] ++ cs.map (Act.write tmp) ++ [Act.close tmp]) ++ [Act.rename tmp dst] := by simp
+  have htmp := before_rename_tmp u fs tmp mode cs
+  rw [hsplit, run_rename u fs _ tmp dst _ htmp]
+  exact ⟨by rw [set_other _ _ _ _ hd, set_same], by rw [set_same]⟩
+
+/-- **closed form of `fileRun`** (the `safe.File` API used directly: one `write(2)` per piece) -/
+theorem fileRun_shape (tmp dst : Path) (mode : Nat) (pieces : List Bytes) (doCommit : Bool) (fault : Fault) :
+    ∃ ws tl, (fileRun tmp dst mode pieces doCommit fault).2 = [.createExcl tmp mode] ++ ws ++ tl ∧
+      OnlyWrites tmp ws ∧ Tail tmp dst tl ∧
+      (tl = [.close tmp, .rename tmp dst] ↔ ((fileRun tmp dst mode pieces doCommit fault).1 = .ok ∧ doCommit = true)) ∧
+      (tl = [.close tmp, .rename tmp dst] → ws = pieces.map (Act.write tmp)) := by
+  have hcreate : File.create tmp dst mode = (openFile tmp dst, [.createExcl tmp mode]) := rfl
+  have hne1 : ([Act.close tmp, .unlink tmp] : List Act) ≠ [.close tmp, .rename tmp dst] := by simp
+  have hne2 : ([Act.closeFail tmp, .unlink tmp] : List Act) ≠ [.close tmp, .rename tmp dst] := by simp
+  have hne3 : ([Act.close tmp, .renameFail tmp dst, .unlink tmp] : List Act) ≠ [.close tmp, .rename tmp dst] := by simp
+  unfold fileRun
+  simp only [hcreate]
+  have hw := writeAll_onlyWrites tmp dst pieces fault.writeAt
+  have hok := writeAll_ok tmp dst pieces fault.writeAt
+  generalize writeAll (openFile tmp dst) pieces fault.writeAt = w at hw hok
+  by_cases hfail : w.1 ≠ .ok
+  · rw [if_pos hfail]
+    refine ⟨w.2, [.close tmp, .unlink tmp], ?_, hw, Tail.abort, ?_, ?_⟩
+    · simp [File.close, openFile]
+    · exact ⟨fun h => absurd h hne1, fun h => absurd h.1 hfail⟩
+    · intro h; exact absurd h hne1
+  · rw [if_neg hfail]
+    have hwok : w.1 = .ok := Classical.byContradiction hfail
+    cases doCommit with
+    | false =>
+      simp only [Bool.false_eq_true, if_false]
+      by_cases hcl : fault = .close
+      · refine ⟨w.2, [.closeFail tmp, .unlink tmp], ?_, hw, Tail.closeFail, ?_, ?_⟩
+        · simp [File.close, openFile, hcl]
+        · exact ⟨fun h => absurd h hne2, fun h => by simp at h⟩
+        · intro h; exact absurd h hne2
+      · refine ⟨w.2, [.close tmp, .unlink tmp], ?_, hw, Tail.abort, ?_, ?_⟩
+        · simp [File.close, openFile, hcl]
+        · exact ⟨fun h => absurd h hne1, fun h => by simp at h⟩
+        · intro h; exact absurd h hne1
+    | true =>
+      simp only [if_true]
+      by_cases hcl : fault = .close
+      · refine ⟨w.2, [.closeFail tmp, .unlink tmp], ?_, hw, Tail.closeFail, ?_, ?_⟩
+        · simp [File.commit, File.close, openFile, hcl]
+        · exact ⟨fun h => absurd h hne2, fun h => by simp [File.commit, openFile, hcl] at h⟩
+        · intro h; exact absurd h hne2
+      · by_cases hrn : fault = .rename
+        · refine ⟨w.2, [.close tmp, .renameFail tmp dst, .unlink tmp], ?_, hw, Tail.renameFail, ?_, ?_⟩
+          · simp [File.commit, File.close, openFile, hrn]
+          · exact ⟨fun h => absurd h hne3, fun h => by simp [File.commit, openFile, hrn] at h⟩
+          · intro h; exact absurd h hne3
+        · refine ⟨w.2, [.close tmp, .rename tmp dst], ?_, hw, Tail.commit, ?_, ?_⟩
+          · simp [File.commit, File.close, openFile, hcl, hrn]
+          · exact ⟨fun _ => ⟨by simp [File.commit, File.close, openFile, hcl, hrn], trivial⟩, fun _ => rfl⟩
+          · intro _; exact hok hwok
 
 end Safe
